@@ -16,7 +16,7 @@ pub fn spec() -> Spec {
     Spec {
         prop: "C19",
         level: "exploration",
-        rule: "A Probe contract stores NUMBER, TIMESTAMP, PREVRANDAO, CHAINID, BASEFEE, GASPRICE, COINBASE, ORIGIN, CALLER, BLOCKHASH(n-k), BLOCKHASH(abs), and the current-txid helper's success/returndatasize/word into a fresh slot group per call; the expectation is computed from the history (supplied timestamp/hash/txid, network, sender) and compared through eth_getStorageAt. Histories use arbitrary timestamps, explicit and zero hashes, distinct txids, inscription / signed / parked-then-drained transactions, reorgs, >256-block depth; networks regtest (Prague), signet and bitcoin at low heights (Cancun). Deposits/withdrawals are checked to run as the indexer address. Non-trivial = probe in a drained transaction, after a reorg, or reading a non-zero BLOCKHASH; distinct by (op kind, network, situation).",
+        rule: "A Probe contract stores NUMBER, TIMESTAMP, PREVRANDAO, CHAINID, BASEFEE, GASPRICE, COINBASE, ORIGIN, CALLER, BLOCKHASH(n-k), BLOCKHASH(abs), and the current-txid helper's success/returndatasize/word into a fresh slot group per call; the expectation is computed from the history (supplied timestamp/hash/txid, network, sender) and compared through eth_getStorageAt. Histories use arbitrary timestamps, explicit and zero hashes, distinct txids, inscription / signed / parked-then-drained transactions, reorgs, >256-block depth; networks regtest (Prague), signet and bitcoin at low heights (Cancun); one worker in five runs under a configured chain id that is not its network's default. Deposits/withdrawals are checked to run as the indexer address. Non-trivial = probe in a drained transaction, after a reorg, or reading a non-zero BLOCKHASH; distinct by (op kind, network, situation).",
         assumptions: vec!["the zero transaction id of deposits/withdrawals is unobservable by construction (the controller does not read it)".into()],
         exhaustive: false,
         min_nontrivial: 2,
@@ -156,8 +156,20 @@ impl<'a> Sc2<'a> {
 
 pub fn worker(ctx: &WorkerCtx) -> WorkerReport {
     let (net, traces) = net_for_shard(ctx.shard);
-    crate::setup_env(net, traces);
     let mut rep = WorkerReport::default();
+    // one worker in five is configured with a chain id that is not the default of its network name
+    // (a private id, or the other network's id): CHAINID, eth_chainId and the signed transactions'
+    // chain id all follow the configured value
+    if ctx.shard % 5 == 4 {
+        let id = match (ctx.shard / 5) % 3 {
+            0 => 0x539,
+            1 => if net == "bitcoin" { rpc::CHAIN_ID_TEST } else { rpc::CHAIN_ID_MAIN },
+            _ => 0x7fff_ffff_ffff_ffff,
+        };
+        rpc::CHAIN_ID_OVERRIDE.store(id, std::sync::atomic::Ordering::Relaxed);
+        rep.set_add("coverage", format!("configured-chain-id-not-the-network-default:{}:{:#x}", net, id));
+    }
+    crate::setup_env(net, traces);
     let mut rng = ctx.rng();
     let cases = if ctx.thorough() { 8 } else { 1 };
     for c in 0..cases {
